@@ -845,6 +845,7 @@ class CallMixin:
                 return dv
         if isinstance(recv, SetV):
             if attr == "add" and args:
+                self.hash_partial(args[0], node, "set.add")
                 recv.items.append(args[0])
                 return Const(None)
         if isinstance(recv, (StrV, Const)) and (recv.kind == "str"):
